@@ -852,3 +852,134 @@ func TestVerifC13ZoneSmoke(t *testing.T) {
 	}
 	fmt.Printf("%d cases in %v\n", n, time.Since(t0))
 }
+
+// ---------------------------------------------------------------- CD partitions of question failures
+
+// TestVerifC13CDPart — "a question failure applies to exactly that name, type, class, CD VALUE …":
+// a resolution that fails WITHOUT a zone failure being recorded (the zone's only server answers the
+// question with a referral back to the parent: the resolver gives up on the referral, no server "failed")
+// leaves a question failure. Enumerated: validation on / off (with validation off the resolver handler
+// forces CD=1 on the upstream exchange and restores the client's bit) x CD of the first client x every
+// sequence of <= 2 follow-up asks from {same name CD=0, same name CD=1, sibling name CD=0} inside the
+// back-off. A follow-up in the partition that failed is served from the failure cache (SERVFAIL EDE 13,
+// no upstream packet); a follow-up in the OTHER CD partition, or for another name, goes upstream.
+func TestVerifC13CDPart(t *testing.T) {
+	c := vkit.Init("C13/cdpart")
+	defer c.Close()
+	w, err := vkNewWorld(c)
+	if err != nil {
+		c.HarnessError(err.Error())
+		return
+	}
+	defer w.sim.Close()
+	zone := vkZone(1)
+	upref := func(_ authsim.Query, h *dns.Msg) authsim.Action {
+		h.Rcode, h.Authoritative = dns.RcodeSuccess, false
+		h.Answer, h.Extra = nil, nil
+		h.Ns = []dns.RR{&dns.NS{Hdr: dns.RR_Header{Name: "t.", Rrtype: dns.TypeNS, Class: dns.ClassINET, Ttl: 300}, Ns: "ns.t."}}
+		return authsim.Action{Msg: h}
+	}
+	type fu struct {
+		Name string
+		CD   bool
+	}
+	fus := []fu{{"a." + zone, false}, {"a." + zone, true}, {"b." + zone, false}}
+	var seqs [][]int
+	for i := range fus {
+		seqs = append(seqs, []int{i})
+		for j := range fus {
+			seqs = append(seqs, []int{i, j})
+		}
+	}
+	askCD := func(pl *h_rpipe.Pipeline, name string, cd bool) (vkAsk, int) {
+		before := w.sim.Count("")
+		q := pl.Query(name, dns.TypeA, true, false)
+		q.CheckingDisabled = cd
+		r := pl.Ask(q, "tcp", h_rpipe.AskOpt{WallCap: 10 * vkQueryTimeout})
+		c.Add("evaluations", 1)
+		a := vkAsk{Returned: r.Returned, Writes: r.Writes}
+		if r.Msg != nil {
+			a.Rcode = r.Msg.Rcode
+			if opt := r.Msg.IsEdns0(); opt != nil {
+				for _, o := range opt.Option {
+					if e, ok := o.(*dns.EDNS0_EDE); ok {
+						a.EDE = append(a.EDE, e.InfoCode)
+					}
+				}
+			}
+		}
+		if r.Returned {
+			a.Settled, _ = pl.Settle(6*time.Second, r.Ledger)
+		}
+		return a, w.sim.Count("") - before
+	}
+	n := 0
+	for _, off := range []bool{false, true} {
+		for _, firstCD := range []bool{false, true} {
+			for _, sq := range seqs {
+				n++
+				if !c.Mine(n) {
+					continue
+				}
+				if c.OverBudget() {
+					c.Cap("time budget")
+					return
+				}
+				run := func() (string, string) {
+					w.sim.Reset()
+					for _, nm := range []string{"a." + zone, "b." + zone} {
+						for _, ty := range vkTypes {
+							w.sim.Script(authsim.Key{Server: zone, QName: nm, QType: ty, Occ: -1}, upref)
+						}
+					}
+					pl := w.pipe(h_rpipe.Config{Mode: "shadow", DNSSECOff: off, FailMinTTL: 30 * time.Second})
+					pl.Reset()
+					first, pk := askCD(pl, "a."+zone, firstCD)
+					if !first.Returned || first.Writes != 1 || first.Rcode != dns.RcodeServerFailure || pk == 0 {
+						return "", fmt.Sprintf("first:%s/%dpk (no failure to partition)", first.outcome(), pk)
+					}
+					if fl := pl.Failures(); len(fl) != 1 || fl[0].Kind != "question" {
+						return "", "first: not a lone question failure: " + vkFailStr(fl)
+					}
+					outs := []string{"first:SERVFAIL"}
+					for _, i := range sq {
+						f := fus[i]
+						a, pk := askCD(pl, f.Name, f.CD)
+						same := f.Name == "a."+zone && f.CD == firstCD
+						served := a.Returned && a.Rcode == dns.RcodeServerFailure && pk == 0
+						outs = append(outs, fmt.Sprintf("%s/cd=%v:%s/%dpk", f.Name[:1], f.CD, a.outcome(), pk))
+						where := fmt.Sprintf("validation off=%v, first client a.%s CD=%v failed (question failure), follow-up %s CD=%v", off, zone, firstCD, f.Name, f.CD)
+						if same && !served {
+							return fmt.Sprintf("%s: the retry in the partition that failed went upstream (%d packets, %s) inside the 30 s back-off", where, pk, a.outcome()), strings.Join(outs, " ")
+						}
+						if !same && served {
+							return fmt.Sprintf("%s: answered %s without any upstream packet - another partition's failure was applied to it", where, a.outcome()), strings.Join(outs, " ")
+						}
+						if !same {
+							break // this ask recorded a failure of its own: later steps would be judged against two failures
+						}
+					}
+					return "", strings.Join(outs, " ")
+				}
+				v, out := run()
+				c.Outcome(out)
+				if strings.HasPrefix(out, "first:SERVFAIL") {
+					c.DistinctStr("nontrivial", fmt.Sprintf("%v|%v|%v", off, firstCD, sq))
+				}
+				c.Sample(map[string]any{"validation_off": off, "first_cd": firstCD, "seq": sq, "out": out})
+				if v == "" {
+					continue
+				}
+				if v2, _ := run(); v2 == "" {
+					c.Add("dropped_unreproducible", 1)
+					continue
+				}
+				kind := "other-partition-suppressed"
+				if strings.Contains(v, "went upstream") {
+					kind = "own-partition-not-suppressed"
+				}
+				c.Violation(fmt.Sprintf("cdpart:%s|nodnssec=%v|firstcd=%v", kind, off, firstCD), v, nil)
+			}
+		}
+	}
+}
